@@ -25,7 +25,7 @@ REPORT = ['modules', 'rejected_by_compiler', 'values', 'evaluations', 'declared_
           'not_accepted_by_checks', 'carved_out']
 FLOORS = {'quick': {'evaluations': 20000, 'modules': 100},
           'thorough': {'evaluations': 80000, 'modules': 400}}
-TIMEOUT = {'quick': 1500, 'thorough': 14000}
+TIMEOUT = {'quick': 1500, 'thorough': 5400}
 CANONICAL = {'der', 'per', 'uper', 'oer'}
 
 
